@@ -128,3 +128,35 @@ pub fn intern(s: &str) -> &'static str {
     m.insert(s.to_string(), leaked);
     leaked
 }
+
+/// Run `f` with the SM2 RNG candidate queue set to `cands`; returns the result (panic captured)
+/// and how many candidates were left unused.
+pub fn with_sm2_candidates<T>(cands: Vec<[u8; 32]>, f: impl FnOnce() -> T) -> (Result<T, String>, usize) {
+    gm_sm2::verif_hooks::set_candidates(Some(cands));
+    let r = crate::engine::catch(f);
+    let left = gm_sm2::verif_hooks::candidates_left();
+    gm_sm2::verif_hooks::set_candidates(None);
+    (r, left)
+}
+
+/// Pool of signer IDs (interned once): None is expressed by index 0.
+pub fn id_pool() -> &'static Vec<Option<&'static str>> {
+    use std::sync::OnceLock;
+    static POOL: OnceLock<Vec<Option<&'static str>>> = OnceLock::new();
+    POOL.get_or_init(|| {
+        let mut v: Vec<Option<&'static str>> = vec![None, Some("1234567812345678"), Some(""), Some("A"), Some("alice@example.com")];
+        for n in [15usize, 17, 31, 32, 33, 55, 56, 64, 100, 255, 256, 1000, 8191] {
+            let s: String = (0..n).map(|i| (b'a' + (i % 26) as u8) as char).collect();
+            v.push(Some(intern(&s)));
+        }
+        v.push(Some(intern("用户甲@例子.cn")));
+        v.push(Some(intern("\u{0}\u{1}ctl\u{7f}")));
+        v
+    })
+}
+
+pub fn id_bytes(idx: usize) -> (&'static [u8], Option<&'static str>) {
+    let pool = id_pool();
+    let id = pool[idx % pool.len()];
+    (id.unwrap_or("1234567812345678").as_bytes(), id)
+}
